@@ -324,7 +324,7 @@ func (dr *dirRepo) BlobGet(d digest.Digest) (io.ReadSeekCloser, error) {
 }
 
 func (dr *dirRepo) blobGet(d digest.Digest, locked bool) (io.ReadSeekCloser, error) {
-	if !dr.exists {
+	if !dr.repoExists(locked) {
 		return nil, fmt.Errorf("repo does not exist %s: %w", dr.name, types.ErrNotFound)
 	}
 	if err := d.Validate(); err != nil {
@@ -343,7 +343,7 @@ func (dr *dirRepo) blobGet(d digest.Digest, locked bool) (io.ReadSeekCloser, err
 // blobMeta returns metadata on a blob.
 func (dr *dirRepo) blobMeta(d digest.Digest, locked bool) (blobMeta, error) {
 	m := blobMeta{}
-	if !dr.exists {
+	if !dr.repoExists(locked) {
 		return m, fmt.Errorf("repo does not exist %s: %w", dr.name, types.ErrNotFound)
 	}
 
@@ -375,7 +375,7 @@ func (dr *dirRepo) BlobCreate(opts ...BlobOpt) (BlobCreator, string, error) {
 			return nil, "", err
 		}
 	}
-	if !dr.exists {
+	if !dr.repoExists(conf.locked) {
 		err := dr.repoInit(conf.locked)
 		if err != nil {
 			return nil, "", err
@@ -452,7 +452,7 @@ func (dr *dirRepo) blobDelete(d digest.Digest, locked bool) error {
 	if *dr.conf.Storage.ReadOnly {
 		return types.ErrReadOnly
 	}
-	if !dr.exists {
+	if !dr.repoExists(locked) {
 		return fmt.Errorf("repo does not exist %s: %w", dr.name, types.ErrNotFound)
 	}
 	if err := d.Validate(); err != nil {
@@ -517,6 +517,15 @@ func (dr *dirRepo) BlobSession(sessionID string) (BlobCreator, error) {
 // This must be called exactly once for every instance of [Store.RepoGet].
 func (dr *dirRepo) Done() {
 	dr.wg.Done()
+}
+
+// repoExists reports if the repo directory has been initialized or loaded.
+func (dr *dirRepo) repoExists(locked bool) bool {
+	if !locked {
+		dr.mu.Lock()
+		defer dr.mu.Unlock()
+	}
+	return dr.exists
 }
 
 func (dr *dirRepo) repoInit(locked bool) error {
